@@ -93,6 +93,17 @@ class Fam:
         return '{} {}'.format(self.name, 'x'.join(str(s) for s in size))
 
 
+def strip_sizes(legal, bound, tier):
+    """tall-narrow / short-wide extremes beyond the square grid, both orientations: narrowest legal side against long
+    sides 2*bound and 2*bound + 1 (aspect ratio >= 4 for every family; the per-size structural cases of qv/families/*
+    carry the dense strip grid)"""
+    legal = sorted(legal)
+    longs = [v for v in legal if v in (2 * bound, 2 * bound + 1)]
+    if tier != 'quick':
+        longs += [v for v in legal if v in (3 * bound, 3 * bound + 1)][:1]
+    return [x for l in longs for x in ((l, legal[0]), (legal[0], l))]
+
+
 def _box(lo_r, hi_r, lo_c, hi_c):
     return [(r, c) for r in range(lo_r, hi_r + 1) for c in range(lo_c, hi_c + 1)]
 
@@ -131,7 +142,7 @@ class Planar(Fam):
 
     def sizes(self, tier):
         b = 5 if tier == 'quick' else 7
-        return [(r, c) for r in range(2, b + 1) for c in range(2, b + 1)]
+        return [(r, c) for r in range(2, b + 1) for c in range(2, b + 1)] + strip_sizes(range(2, 64), b, tier)
 
     def opat_line(self, size, v, i):
         return 'planar opat {} {} {} {},{}'.format(size[0], size[1], bits(v), i[0], i[1])
@@ -160,7 +171,7 @@ class RotatedPlanar(Fam):
 
     def sizes(self, tier):
         b = 6 if tier == 'quick' else 8
-        return [(r, c) for r in range(3, b + 1) for c in range(3, b + 1)]
+        return [(r, c) for r in range(3, b + 1) for c in range(3, b + 1)] + strip_sizes(range(3, 64), b, tier)
 
 
 class Toric(Fam):
@@ -207,7 +218,7 @@ class Toric(Fam):
 
     def sizes(self, tier):
         b = 5 if tier == 'quick' else 7
-        return [(r, c) for r in range(2, b + 1) for c in range(2, b + 1)]
+        return [(r, c) for r in range(2, b + 1) for c in range(2, b + 1)] + strip_sizes(range(2, 64), b, tier)
 
     def opat_line(self, size, v, i):
         return 'toric opat {} {} {} {},{},{}'.format(size[0], size[1], bits(v), i[0], i[1], i[2])
@@ -256,7 +267,7 @@ class RotatedToric(Fam):
     def sizes(self, tier):
         b = 6 if tier == 'quick' else 10
         ev = list(range(2, b + 1, 2))
-        return [(r, c) for r in ev for c in ev]
+        return [(r, c) for r in ev for c in ev] + strip_sizes(range(2, 64, 2), b, tier)
 
 
 class Color666(Fam):
@@ -370,6 +381,12 @@ def apply(p, op):
     return getattr(p, k)()
 
 
+def may_refuse(op):
+    """IndexError is a documented answer only of the writes that take an index (site / plaquette / path outside the
+    lattice or across lattices); a logical operator of a constructible code always exists"""
+    return op[0] in ('site', 'plaquette', 'path')
+
+
 def show(op):
     return [list(x) if isinstance(x, tuple) else ([list(y) for y in x] if isinstance(x, list) else x) for x in op]
 
@@ -446,12 +463,14 @@ def readback(ctx, mon, fam, code, size):
         exc = None
         try:
             apply(p, w)
-        except IndexError:
-            exc = 'IndexError'
         except Exception as ex:
-            mon.fail(fam.name, 'write-exc', 'a documented write raised {}'.format(type(ex).__name__),
-                     {'code': tag, 'call': show(w), 'error': repr(ex)[:200]})
-            continue
+            if isinstance(ex, IndexError) and may_refuse(w):
+                exc = 'IndexError'
+            else:
+                mon.fail(fam.name, 'write-exc', 'constructible code {} raises {} from new_pauli().{}()'.format(
+                    tag, type(ex).__name__, w[0]), {'family': fam.name, 'size': list(size), 'code': tag,
+                                                    'call': show(w), 'error': repr(ex)[:200]})
+                continue
         try:
             v = np.array(p.to_bsf(), dtype=int)
         except Exception as ex:
@@ -559,8 +578,9 @@ def history(ctx, mon, fam, code, size, length, mode, lean):
             bad('hist-exc', 'a write behaves differently on a used Pauli than on a fresh one',
                 {'call': show(op), 'raised': exc, 'raised_on_fresh': dexc})
             return None
-        if exc not in (None, 'IndexError'):
-            bad('write-exc', 'a write raised {}'.format(exc), {'call': show(op)})
+        if exc not in (None, 'IndexError') or (exc == 'IndexError' and not may_refuse(op)):
+            bad('write-exc', 'constructible code {} raises {} from new_pauli().{}()'.format(tag, exc, op[0]),
+                {'family': fam.name, 'size': list(size), 'call': show(op)})
             return None
         return d
 
@@ -692,19 +712,22 @@ def histories(ctx, mon, fam, code, size):
     for a in firsts:
         for b in seconds:
             p = code.new_pauli()
+            doing = a
             try:
                 da, _ = fresh_delta(code, a)
                 db, _ = fresh_delta(code, b)
                 apply(p, a)
                 v1 = np.array(p.to_bsf(), dtype=int)
+                doing = b
                 apply(p, b)
                 v2 = np.array(p.to_bsf(), dtype=int)
-            except IndexError:
-                continue
             except Exception as ex:
-                mon.fail(fam.name, 'short-exc', 'write / to_bsf raised', {'code': tag, 'history': [show(a), ['to_bsf'],
-                                                                                               show(b), ['to_bsf']],
-                                                                         'error': repr(ex)[:200]})
+                if isinstance(ex, IndexError) and may_refuse(doing):
+                    continue
+                mon.fail(fam.name, 'short-exc', 'constructible code {} raises {} from new_pauli().{}()'.format(
+                    tag, type(ex).__name__, doing[0]),
+                    {'family': fam.name, 'size': list(size), 'code': tag, 'call': show(doing),
+                     'history': [show(a), ['to_bsf'], show(b), ['to_bsf']], 'error': repr(ex)[:200]})
                 continue
             if not np.array_equal(v1, da) or not np.array_equal(v2, da ^ db):
                 mon.fail(fam.name, 'hist-bsf', 'to_bsf() of a Pauli differs from the XOR of the operators applied to it',
@@ -714,6 +737,7 @@ def histories(ctx, mon, fam, code, size):
 
 # ------------------------------------------------------------------------------------------------ C. constructors
 
+CTX = [None]     # the running check context (set by `run`), for failures reported from inside `ctor_verdict`
 NP_INTS = ['int8', 'uint8', 'int16', 'uint16', 'int32', 'uint32', 'int64', 'uint64', 'intp']
 
 
@@ -757,9 +781,14 @@ def plain(v):
 
 
 def reference(cls, ints):
+    """what the plain-int code of this size publishes, or None when the plain-int code itself does not answer (that is
+    reported per size by `published`, with the access that raised)"""
     clear_caches(cls)
-    c = cls(*ints)
-    ref = (tuple(int(x) for x in c.n_k_d), np.array(c.stabilizers), np.array(c.logical_xs), np.array(c.logical_zs))
+    try:
+        c = cls(*ints)
+        ref = (tuple(int(x) for x in c.n_k_d), np.array(c.stabilizers), np.array(c.logical_xs), np.array(c.logical_zs))
+    except Exception:
+        ref = None
     clear_caches(cls)
     return ref
 
@@ -832,6 +861,14 @@ def ctor_verdict(fam, cls, labels, args, refs):
     ints = tuple(idx)
     if ints not in refs:
         refs[ints] = reference(cls, ints)
+    if refs[ints] is None:
+        # the plain-int code of this (documented) size does not publish its data: a failure of C07 for that SIZE, whatever
+        # the argument types — reported once per size with the access that raises
+        from qv.families import common
+        if CTX[0] is not None:
+            common.published(CTX[0], fam.name, ints, lambda: cls(*ints))
+            clear_caches(cls)
+        return 'ok', None, None
     problem = usable(fam, cls, args, refs[ints])
     if problem:
         odd = sorted({type(a).__name__ for a in args if not plain(a)})
@@ -893,22 +930,33 @@ def ctor_search(meta):
 # ------------------------------------------------------------------------------------------------ entry
 
 def run(ctx, only=None):
+    from qv.families import common
     mon = Mon(ctx)
+    CTX[0] = ctx
     for fam in FAMS:
         if only and fam.name not in only:
             continue
         cls = fam.load()
         clear_caches(cls)
-        for size in fam.sizes(ctx.tier):
-            try:
-                code = cls(*size)
-                readback(ctx, mon, fam, code, size)
-                histories(ctx, mon, fam, code, size)
-            except Exception as ex:
-                import sys
-                if not from_qecsim(sys.exc_info()[2]):
-                    raise
-                mon.fail(fam.name, 'exc', 'the real code raised {} where the property promises an answer'.format(
-                    type(ex).__name__), {'code': fam.tag(size), 'traceback': traceback.format_exc()[-1200:]})
+        grid = fam.sizes(ctx.tier)
+        common.grid_report(ctx, fam.name + ' (site access / histories)', grid)
+        for size in grid:
+            # everything the code publishes first, each access guarded ('constructible code … raises …'); read-back and
+            # histories need only the constructor and n_k_d, so they run even when e.g. a logical is not published
+            pub = common.published(ctx, fam.name, size, lambda: cls(*size))
+            if pub.code is None or 'n_k_d' in pub.failed:
+                continue
+            code = pub.code
+            for part in (readback, histories):
+                try:
+                    part(ctx, mon, fam, code, size)
+                except Exception as ex:
+                    import sys
+                    tb = sys.exc_info()[2]
+                    if not from_qecsim(tb):
+                        raise
+                    line, inner = common.where_raised(tb)
+                    common.report_raises(ctx, fam.name, size, line or part.__name__, ex, tb=tb)
         constructors(ctx, mon, fam)
+    CTX[0] = None
     return mon
